@@ -806,6 +806,51 @@ TYPE_CODE = {"*v030.V030Handshaker": 0, "*v030.V032Handshaker": 1, "*v030.V033Ha
 TYPE_OF_VERSION = {0x301: "*v030.V030Handshaker", 0x302: "*v030.V032Handshaker", 0x303: "*v030.V033Handshaker", 0x20000: "*v200.V200Handshaker"}
 
 
+FOREIGN_KINDS = ["magic", "cons", "pub", "main", "empty"]
+
+
+def gen_chainid(ctx):
+    """Arrival scripts for the real ChainService: honest blocks and blocks of another chain, in every arrival order."""
+    rng = ctx.rng
+    quick = ctx.tier == "quick"
+    S = lambda no, kind="honest", parent="": {"no": no, "kind": kind, "parent": parent}
+    C = []
+
+    def add(steps, tag, model=True, height=3, total=7):
+        C.append({"height": height, "total": total, "steps": steps, "_tag": tag, "_model": model})
+    for k in FOREIGN_KINDS:
+        add([S(4, k), S(4), S(5)], "direct-child")                                   # foreign block as a direct child of the best block
+        add([S(5, k), S(4), S(5), S(6)], "orphan-then-parent")                       # foreign orphan first, then its honest parent
+        add([S(4), S(5), S(5, k), S(6)], "after-honest-same-height")                 # foreign block after the honest block of its height
+        add([S(5, k), S(6, k, "same"), S(4), S(5), S(6)], "two-deep-orphan-chain")   # foreign orphan and its foreign child
+        add([S(6, k), S(5), S(4), S(6)], "deep-orphan")                              # foreign orphan two above the best, honest orphans resolved
+        add([S(5, k), S(5, k), S(4), S(5, k), S(5)], "repeated")
+    add([S(6), S(5), S(4)], "honest-orphans")
+    add([S(4), S(4), S(5)], "honest-duplicate")
+    add([S(5), S(7), S(4), S(6)], "honest-two-gaps")
+    # version-only difference: ValidChildOf ignores the version, and nothing else on this path validates it (observation, not modelled)
+    add([S(4), S(4, "version"), S(5, "version"), S(5), S(6)], "version-only", model=False)
+    add([S(5, "version"), S(4), S(5), S(6)], "version-only-orphan", model=False)
+    for _ in range(10 if quick else 300):
+        steps = []
+        for _s in range(rng.randrange(2, 8)):
+            no = rng.randrange(4, 8)
+            k = "honest" if rng.random() < 0.55 else rng.choice(FOREIGN_KINDS)
+            steps.append(S(no, k, "same" if (k != "honest" and no > 4 and rng.random() < 0.25) else ""))
+        add(steps, "random")
+    return C
+
+
+def ci_id(label):
+    """label -> number for the model: h5 -> 5, f5:<kind> -> 1000*(kind index+1)+5, + 500000 for a foreign-parent variant."""
+    if label.startswith("h"):
+        return int(label[1:])
+    no, kind = label[1:].split(":")
+    up = kind.endswith("^")
+    kind = kind.rstrip("^")
+    return 1000 * (["magic", "cons", "pub", "main", "empty", "version"].index(kind) + 1) + int(no) + (500000 if up else 0)
+
+
 def coq_chain(c):
     v = c["v"] & (2 ** 32 - 1)
     b = lambda x: "true" if x else "false"
@@ -1167,11 +1212,13 @@ def run(ctx):
     lap("engines")
     # ================================================================= thorough: chain-level F8, real FindBestP2PVersion
     chain_obs, neg_cases, neg_obs = [], [], []
+    ci_items, ci_src = [], []
     # chain-service level F8 and the real FindBestP2PVersion need the overlay builds of packages chain and p2p; cached they cost
     # 1-8 s + 0.2 s (measured), so they run in every tier; VERIF_C18_NODEEP=1 skips them in the quick tier (cold build ~30 s each)
     deep = (not quick) or os.environ.get("VERIF_C18_NODEEP") != "1"
     if deep:
-        rc, log, bchain = ctx.go_test_binary("chain", [os.path.join(E, "zz_verif_c18_chainf8_engine_test.go")], "chain.test", use_overlay=True)
+        rc, log, bchain = ctx.go_test_binary("chain", [os.path.join(E, "zz_verif_c18_chainf8_engine_test.go"),
+                                                      os.path.join(E, "zz_verif_c18_chainid_engine_test.go")], "chain.test", use_overlay=True)
         if rc != 0:
             raise RuntimeError("chain F8 engine build failed:\n" + log[-3000:])
         rc, log, chain_obs = run_engine(ctx, bchain, "TestVerifC18ChainF8Engine", [], "chainf8")
@@ -1187,6 +1234,54 @@ def run(ctx):
                                   "an altered block announcing the genuine identifier makes ChainService.addBlock reject the genuine block: " + o["genuine_err"], {"obs": o}))
             if o["scenario"] == "control" and not (o["add_err"] == "" and o["stored_under_digest"]):
                 pred_fail.append(("C18:chain-control", "a genuine block with an empty Hash field was not stored under the digest of its header", {"obs": o}))
+        # ---------------- chain identifier of received blocks: arrival orders through the real ChainService
+        cicases = gen_chainid(ctx) + corpus.get("chainid", [])
+        rc, log, ciobs = run_engine(ctx, bchain, "TestVerifC18ChainIDEngine", cicases, "chainid")
+        if rc != 0 or len(ciobs) != len(cicases):
+            raise RuntimeError("chain-id engine failed rc=%s obs=%d/%d:\n%s" % (rc, len(ciobs), len(cicases), log[-3000:]))
+        for c, o in zip(cicases, ciobs):
+            dist["chainid:" + c.get("_tag", "corpus")] = dist.get("chainid:" + c.get("_tag", "corpus"), 0) + 1
+            foreign_labels = set()
+            honest_seen = set()
+            items = []
+            for st_, so in zip(c["steps"], o["steps"]):
+                if so.get("panic"):
+                    pred_fail.append(("C18:chain-panic", "ChainService.addBlock panicked: " + so["panic"][:200], {"case": c, "obs": o}))
+                if so["foreign"]:
+                    foreign_labels.add(so["label"])
+                    if so["cls"] == 0:
+                        pred_fail.append(("C18:foreign-block-not-refused", "a block whose header carries another chain identifier (%s) was not refused by ChainService.addBlock" % so["label"], {"case": c, "obs": o}))
+                else:
+                    honest_seen.add(so["label"])
+                bad = [l for l in (so["stored"] or []) + (so["main"] or []) + (so["orphans"] or []) + [so["best"]] if l in foreign_labels or (l.startswith("f") and not l.endswith(":version") and not l.endswith(":version^"))]
+                if bad:
+                    pred_fail.append(("C18:foreign-block-connected", "a block of another chain (%s) is stored / on the main chain / best / pooled as an orphan after the arrival of %s"
+                                      % (", ".join(sorted(set(bad))), so["label"]), {"case": c, "obs": o}))
+                if so["label"].startswith("h") and so["cls"] not in (0,):
+                    pred_fail.append(("C18:honest-block-refused", "the honest block %s was refused (%s) after blocks of another chain had been delivered" % (so["label"], so["err"][:80]), {"case": c, "obs": o}))
+                if c.get("_model", True):
+                    no, kind = st_["no"], st_["kind"]
+                    lab = so["label"]
+                    parent = ci_id(("f%d:%s" % (no - 1, kind)) if st_.get("parent") == "same" else "h%d" % (no - 1))
+                    items.append("(mk_cblock %d %d %d %s, (%d, %d, [%s], [%s]))" % (
+                        ci_id(lab), parent, no, "true" if so["foreign"] else "false", so["cls"], ci_id(so["best"]),
+                        ";".join(str(ci_id(l)) for l in ["h%d" % i for i in range(1, c["height"] + 1)] + (so["stored"] or [])),
+                        ";".join(str(ci_id(l)) for l in (so["orphans"] or []))))
+            # at the end: the honest chain delivered contiguously from height+1 is the main chain
+            last = o["steps"][-1]
+            n = c["height"]
+            while "h%d" % (n + 1) in honest_seen:
+                n += 1
+            exp_main = ["h%d" % i for i in range(c["height"] + 1, n + 1)]
+            if c.get("_model", True) and (last["main"] or []) != exp_main:
+                pred_fail.append(("C18:honest-chain-affected", "after the script the main chain above height %d is %s, the honest blocks delivered are %s" % (c["height"], last["main"], exp_main), {"case": c, "obs": o}))
+            if not c.get("_model", True):
+                if any(l.endswith(":version") for so in o["steps"] for l in (so["main"] or [])):
+                    ctx.notes.append("observation: a block whose header chain id differs only in the version was connected and was the best block for a while (ValidChildOf ignores the version; ValidateHeader has 'ChainVersion' as a TODO)")
+                continue
+            init = "; ".join("mk_cblock %d %d %d false" % (i, i - 1, i) for i in range(1, c["height"] + 1))
+            ci_items.append("([%s], [%s])" % (init, ";\n ".join(items)))
+            ci_src.append(dict(case=c, obs=o))
         rc, log, bp2p = ctx.go_test_binary("p2p", [os.path.join(E, "zz_verif_c18_negotiate_engine_test.go"),
                                                    os.path.join(E, "zz_verif_c18_blkrecv_engine_test.go"),
                                                    os.path.join(E, "zz_verif_c18_wirehs_engine_test.go"),
@@ -1473,7 +1568,11 @@ def run(ctx):
                                                           b_((not c["nil_sender"]) and ADDR_OK[c["addr"]]), cb(b"" if c["nil_sender"] else bytes.fromhex(o["peer_used"])), cb(bytes.fromhex(o["gen_used"])))
             cls = o["cls"]
             if cls == 23 and c["nil_sender"] and run_v != 0x20000:
-                cls = 4          # 0.3.x receive fix-up refuses a nil Sender as "malformed status message" before the address test
+                # 0.3.x receiveRemoteStatus refuses a nil Sender as "malformed status message" before any check of the status
+                # (v030_receive_ok in P2P/StatusRaw.v); run_handshaker models the checks only: refusal is all that is compared here
+                if o["accepted"]:
+                    pred_fail.append(("C18:handshake-nil-sender", "a 0.3.x connection completed with a status without Sender", {"case": c, "obs": o}))
+                continue
             vers_conn.append("(%d, %s, %s, %d)" % (run_v, loc, stt, cls))
             vers_csrc.append(dict(case=c, obs=o))
     if "outbound_downgrade_conn" in f20 and "outbound_downgrade" not in f20:
@@ -1601,6 +1700,11 @@ def run(ctx):
             "  [([magic_main; hs_error; hs_code_wrong_req; hs_code_no_version; hs_max_version_cnt; hs_word; hs_word; hs_word], %s);" % NL(wc),
             "   ([max_block_size block_size_hard_limit; max_payload_length; block_size_hard_limit; default_max_hdr_size], %s)] 0." % NL([ws[0], ws[5], ws[6], ws[7]]), "Print MWC.",
             "Definition MWE := Eval vm_compute in mismatches_from (fun c : N * N => (fst c + envelope <=? max_payload_length) && (snd c <=? fst c + envelope)) [(%d, %d)] 0." % (ws[1], max(ws[3], ws[4])), "Print MWE."]))
+    if ci_items:
+        shards.append(("chainid", "chainid", 0, ["From Coq Require Import NArith List Bool.", "From Verif Require Import Common.Bytes P2P.ChainAdmit.",
+                                                 "Import ListNotations.", "Open Scope N_scope.",
+            "Definition cicases : list (list cblock * list (cblock * (N * N * list N * list N))) := [%s]." % ";\n".join(ci_items),
+            "Definition MCI := Eval vm_compute in mismatches_from chain_script_ok cicases 0.", "Print MCI."]))
     if vers_kind or vers_conn:
         shards.append(("vers", "vers", 0, head + [
             "Definition vkcases : list (N * N) := [%s]." % ";\n".join(vers_kind),
@@ -1641,6 +1745,11 @@ def run(ctx):
                 corr.append(("model evaluation unparsable (%s)" % name, out[-1000:]))
             elif res["MI"]:
                 corr.append(("inbound handshake over a byte stream and P2P/Inbound.v differ", [dict(case=fcases[i][0], obs=fcases[i][1]) for i in res["MI"][:5]]))
+        elif kind == "chainid":
+            if "MCI" not in res:
+                corr.append(("model evaluation unparsable (%s)" % name, out[-1000:]))
+            elif res["MCI"]:
+                corr.append(("ChainService.addBlock on an arrival script and add_block (P2P/ChainAdmit.v) differ", [ci_src[i] for i in res["MCI"][:3]]))
         elif kind == "vers":
             if "MVK" not in res or "MVC" not in res:
                 corr.append(("model evaluation unparsable (%s)" % name, out[-1000:]))
@@ -1710,7 +1819,7 @@ def run(ctx):
     ctx.cov["timing_s"] = tm
     # ================================================================= evidence
     evals = len(W) + len(R) + len(ST) + len(HS) + len(BC) + len(chain_obs) + len(neg_cases)
-    evals += len(recv_items) + len(sm_items) + len(wire_marshal) + len(wire_resp) + len(wire_rresp) + len(wire_read) + len(wire_wire) + len(wire_out) + len(vers_kind) + len(vers_conn)
+    evals += len(recv_items) + len(sm_items) + len(wire_marshal) + len(wire_resp) + len(wire_rresp) + len(wire_read) + len(wire_wire) + len(wire_out) + len(vers_kind) + len(vers_conn) + sum(len(x["case"]["steps"]) for x in ci_src)
     ctx.cov["evaluations"] = evals
     ctx.cov["traces_validated_against_impl"] = evals
     nontriv = set()
@@ -1724,6 +1833,8 @@ def run(ctx):
         nontriv.add(("blk", c["hash_field"][:4], c["alter_hdr"], c["wire"], o["block_hash"] == o["digest"]))
     for x in recv_src:
         nontriv.add(("recv", x["case"].get("_tag", "corpus"), len(x["case"]["hashes"]), tuple((so["status"], (so["tells"] or [{"err": -1}])[0]["err"]) for so in x["obs"]["steps"])))
+    for x in ci_src:
+        nontriv.add(("chainid", x["case"].get("_tag"), tuple((so["label"], so["cls"], so["best"]) for so in x["obs"]["steps"])))
     for x in vers_ksrc + vers_csrc:
         nontriv.add(("conn", x["case"]["op"], tuple(x["case"]["versions"]), x["case"]["_mut"], x["obs"]["cls"], x["obs"]["type"]))
     for x in wire_src + wire_wsrc + wire_osrc:
